@@ -99,19 +99,62 @@ def normalise(t, depth=0):
     return [([], t)]  # opaque
 
 
+SIDE_TIMEOUT_MS = 700
+SIDE_RLIMIT = 40_000_000
+_HEAVY = ("SumOver_", "sqrt", "(/ ", "(* ")
+
+
+def _light(s):
+    """a solver holding only the LIGHT assertions of s (no sums, no products / quotients of unknowns, no sqrt): most side
+    conditions of the normaliser (index ranges, index equalities, positivity of a scalar) follow from those alone, and a
+    query against them never drifts into non-linear arithmetic.  Proving from a subset of the assumptions is sound."""
+    n = len(s.assertions())
+    cache = getattr(s, "_verif_light", None)
+    if cache is not None and cache[0] == n:
+        return cache[1]
+    ls = z3.Solver()
+    ls.set("timeout", 1000)
+    for a in s.assertions():
+        try:
+            txt = a.sexpr()
+        except z3.Z3Exception:
+            continue
+        if len(txt) < 4000 and not any(h in txt for h in _HEAVY):
+            ls.add(a)
+    s._verif_light = (n, ls)
+    return ls
+
+
 def _unsat(s, *facts):
     import os
     import time
 
     t0 = time.time()
+    try:
+        ls = _light(s)
+        ls.push()
+        try:
+            ls.add(*facts)
+            if ls.check() == z3.unsat:
+                return True
+        finally:
+            ls.pop()
+    except z3.Z3Exception:
+        pass
     s.push()
     try:
+        # side conditions of the normaliser are linear / UF facts: when one needs more than a moment the query has drifted
+        # into non-linear arithmetic, where z3 may run (far) past its timeout; cap it — 'unknown' only means "not proved this way"
+        s.set("timeout", SIDE_TIMEOUT_MS)
+        s.set("rlimit", SIDE_RLIMIT)
         s.add(*facts)
         r = s.check()
     except z3.Z3Exception:
         r = z3.unknown
     finally:
         s.pop()
+        s.set("timeout", getattr(s, "_verif_timeout", 10000))
+        s.set("rlimit", 0)
     if os.environ.get("SUMNF_TRACE") and time.time() - t0 > 1.0:
         import sys
 
